@@ -627,6 +627,10 @@ def cases(tier, check='values'):
         yield Case(f'{check}:mesh:qqqtt:edge_node:start1:attr:fill0:buf{buffer}:clip', body_mesh,
                    dict(mesh='qqqtt', supply=('edge_node',), start_index=1, fill='attr', fill_value=0, buffer=buffer, via='clip', check=check),
                    patches=_patches, max_paths=2000)
+    # faces that share node number 0 and nothing else; one ring of neighbours
+    yield Case(f'{check}:mesh:pin0:edge_node:start0:none:buf1:clip', body_mesh,
+               dict(mesh='pin0', supply=('edge_node',), start_index=0, fill='none', buffer=1, via='clip', check=check),
+               patches=_patches, max_paths=2000)
     for mesh, supply in (('tqp', ('edge_node', 'edge_face', 'face_face')), ('qqq', ('edge_node', 'face_edge', 'edge_face'))):
         yield Case(f'{check}:mesh:{mesh}:{"+".join(supply)}:start1:nan:buf0:dup_faces', body_mesh,
                    dict(mesh=mesh, supply=supply, start_index=1, fill='nan', buffer=0, via='dup_faces', check=check), patches=_patches, max_paths=2000)
